@@ -288,9 +288,14 @@ func (p *Prog) resolveRole(role string) (*ssa.Function, error) {
 		return one(role, c)
 
 	case "graphBuilder":
+		// prunes the graph (Remove); drives the input builder
 		var c []*ssa.Function
+		ib, _ := p.Role("inputBuilder")
 		for _, f := range arg {
 			if len(Calls(f, GRemove)) > 0 {
+				c = append(c, f)
+			}
+			if ib != nil && f != ib && p.callsFn(f, ib) {
 				c = append(c, f)
 			}
 		}
